@@ -71,6 +71,15 @@ def run_impl(base: int, n: int, init: list, ops: list[tuple[str, object]]):
         inwin = ''.join('1' if (x in set(it)) else '0' for x in range(base, base + n))
         if inwin != bits:
             return impl_list_str(u.codepoints) + '!iter-vs-contains', bits
+        # equality is extensional (theorem eq_extensional): equal to the canonical list of its own
+        # members and to a subset built from it, whatever the representation; different from the set
+        # with one window point toggled
+        members = set(it)
+        canon = canon_of_set(members)
+        other = canon_of_set(members ^ {base + (len(it) * 7 + len(outs)) % n})
+        if not (u == canon) or not (u == UnicodeSubset(list(canon))) or not (UnicodeSubset(list(canon)) == u) \
+                or (u == other) or (u == UnicodeSubset(list(other))) or (u != canon):
+            return impl_list_str(u.codepoints) + '!eq-not-extensional', bits
         return impl_list_str(u.codepoints), bits
 
     try:
@@ -375,7 +384,7 @@ def compare(run: Run, cases: list) -> None:
                 run.disagree(Disagreement(prefix, i_repr, m_repr, spec=s_canon + ' (operands unchanged, new object)',
                                           what='operator-purity', site='UnicodeSubset.__or__/__sub__/__and__/__xor__/copy'))
                 break
-            if i_repr.startswith('ERR') or i_repr.endswith(('!iter', '!iter-vs-contains')):
+            if i_repr.startswith('ERR') or i_repr.endswith(('!iter', '!iter-vs-contains', '!eq-not-extensional')):
                 run.disagree(Disagreement(prefix, i_repr, m_repr, spec=s_canon, what='exception-or-iter',
                                           site='UnicodeSubset'))
                 break
